@@ -679,6 +679,11 @@ def unit_rac(eng=None, tier="quick", tree=None):
                     sexp.append(None)
                 except LookupError:
                     sexp.append("bk")
+    # '.asciz' appends exactly one NUL whatever the payload ends in; '<n>' chunks and escapes are payload
+    for src_, hexp in (('.asciz "ab"<0>\n', "61620000"), ('.asciz <0>\n', "0000"), ('.asciz "a\\x00"\n', "610000"), ('.ascii "ab"<0>\n', "616200"), ('.asciz ""\n', "00"), ('.asciz "a"<0><0>\n', "61000000"),
+                       ('.asciz <1><0>"b"\n', "01006200")):
+        sjobs.append({"kind": "asm", "sources": [src_], "charset": "bk"})
+        sexp.append(hexp)
     sres = driver.native(sjobs, tree or driver.tree_root())
     for j, e, r in zip(sjobs, sexp, sres):
         if e == "bk":
